@@ -140,13 +140,13 @@ theorem routeSearch_kd (s : St) (c : Nat) (f : Frame) : kd (routeSearch s c f).o
 theorem endDriver_scrubQ (s : St) (how : Drv) : (endDriver s how).scrubQ = s.scrubQ := rfl
 
 /-- the invariant of calm histories: nothing waits to be scrubbed, no operation has a deadline, none is an Abandon -/
-def Calm (s : St) : Prop :=
+def CalmSt (s : St) : Prop :=
   s.scrubQ = [] ∧ ∀ p ∈ kd s.ops, p.2 = none ∧ ∀ t, p.1 ≠ .abandon t
 
-theorem Calm.op {s : St} (h : Calm s) {i : Nat} {o : Op} (ho : s.ops[i]? = some o) : o.deadline = none ∧ ∀ t, o.kind ≠ .abandon t :=
+theorem CalmSt.op {s : St} (h : CalmSt s) {i : Nat} {o : Op} (ho : s.ops[i]? = some o) : o.deadline = none ∧ ∀ t, o.kind ≠ .abandon t :=
   h.2 (o.kind, o.deadline) (List.mem_map.mpr ⟨o, List.mem_of_getElem? ho, rfl⟩)
 
-theorem Calm.init (N : Nat) : Calm (Conn.init N) := ⟨rfl, fun p hp => by simp [Conn.init, kd] at hp⟩
+theorem CalmSt.init (N : Nat) : CalmSt (Conn.init N) := ⟨rfl, fun p hp => by simp [Conn.init, kd] at hp⟩
 
 /-- events that change neither kinds nor deadlines, and add no scrub -/
 theorem step_calm_other {s s' : St} {ob : Obs} (e : Ev) (hs : Conn.step s e = some (s', ob))
@@ -166,9 +166,9 @@ theorem step_calm_other {s s' : St} {ob : Obs} (e : Ev) (hs : Conn.step s e = so
          obtain ⟨rfl, _⟩ := hs
          simp_all [kd_set, kd_modifyOp, kd_deliver, kd_dropSender, kd_dropSenderOpt, kd_endDriver, endDriver_scrubQ])
 
-theorem Calm.step {s s' : St} {ob : Obs} (h : Calm s) (e : Ev) (hc : calmEv e = true) (hs : Conn.step s e = some (s', ob)) :
-    Calm s' := by
-  have other : (kd s'.ops = kd s.ops ∧ s'.scrubQ = []) → Calm s' := fun ⟨h1, h2⟩ => ⟨h2, by rw [h1]; exact h.2⟩
+theorem CalmSt.step {s s' : St} {ob : Obs} (h : CalmSt s) (e : Ev) (hc : calmEv e = true) (hs : Conn.step s e = some (s', ob)) :
+    CalmSt s' := by
+  have other : (kd s'.ops = kd s.ops ∧ s'.scrubQ = []) → CalmSt s' := fun ⟨h1, h2⟩ => ⟨h2, by rw [h1]; exact h.2⟩
   cases e with
   | alloc kind =>
     simp only [Conn.step] at hs
@@ -241,7 +241,7 @@ theorem Calm.step {s s' : St} {ob : Obs} (h : Calm s) (e : Ev) (hc : calmEv e = 
   | srvGarbage => exact other (step_calm_other _ hs (by simp) h.1)
   | tick d => exact other (step_calm_other _ hs (by simp) h.1)
 
-theorem Calm.safeAt {s : St} (h : Calm s) (e : Ev) (hr : s.drv = .running) : safeAt s e = true := by
+theorem CalmSt.safeAt {s : St} (h : CalmSt s) (e : Ev) (hr : s.drv = .running) : safeAt s e = true := by
   cases e with
   | alloc k => simp [Conn.safeAt, hr]
   | drvScrub => simp [Conn.safeAt, h.1]
@@ -258,7 +258,7 @@ theorem Calm.safeAt {s : St} (h : Calm s) (e : Ev) (hr : s.drv = .running) : saf
     · rfl
   | _ => rfl
 
-theorem noEarlyRelease_of_calm (evs : List Ev) : ∀ s, Calm s → calm evs = true → (Conn.run s evs).drv = .running →
+theorem noEarlyRelease_of_calm (evs : List Ev) : ∀ s, CalmSt s → calm evs = true → (Conn.run s evs).drv = .running →
     noEarlyRelease s evs = true := by
   induction evs with
   | nil => intro s _ _ _; rfl
@@ -283,6 +283,6 @@ theorem noEarlyRelease_of_calm (evs : List Ev) : ∀ s, Calm s → calm evs = tr
 /-- every calm history after which the driver still runs is free of early releases -/
 theorem noEarlyRelease_calm (N : Nat) (evs : List Ev) (hc : calm evs = true) (hr : (Conn.run (Conn.init N) evs).drv = .running) :
     noEarlyRelease (Conn.init N) evs = true :=
-  noEarlyRelease_of_calm evs _ (Calm.init N) hc hr
+  noEarlyRelease_of_calm evs _ (CalmSt.init N) hc hr
 
 end Ldap3V.Conn
